@@ -2458,7 +2458,8 @@ static void MPSwriteRecord(
    const R     value2 = 0.0
 )
 {
-   char buf[81];
+   // a double printed with %.15f needs up to 309 digits before the decimal point
+   char buf[384];
 
    spxSnprintf(buf, sizeof(buf), " %-2.2s %-8.8s", (indicator == nullptr) ? "" : indicator,
                (name == nullptr)      ? "" : name);
